@@ -1,6 +1,7 @@
 #!/usr/bin/env python3
 """apply a textual mutation to /repo, run checks, revert.  usage: mut.py FILE 'old' 'new' CHECK [CHECK...]"""
-import subprocess, sys
+import os, subprocess, sys
+env = dict(os.environ, VERIF_DEV_SKIP_LEAN="1")
 f, old, new, *checks = sys.argv[1:]
 p = "/repo/" + f
 s = open(p).read()
@@ -8,7 +9,7 @@ assert s.count(old) >= 1, "pattern not found"
 open(p, "w").write(s.replace(old, new, 1))
 try:
     for c in checks:
-        r = subprocess.run(["/verif/check", c], capture_output=True, text=True)
+        r = subprocess.run(["/verif/check", c], capture_output=True, text=True, env=env)
         lines = [l for l in r.stdout.splitlines() if l.startswith(("VIOLATION", "[", "KNOWN"))]
         print(c, "exit", r.returncode, "|", " ; ".join(l[:150] for l in lines[:2] + lines[-1:]))
 finally:
